@@ -128,6 +128,9 @@ func c07canary(c *Ctx, st *c07state, after c07case) {
 	}
 }
 
+// source texts up to this many bytes are also lexed by the model inside Coq
+const c07lexModelMaxSrc = 200
+
 func c07one(c *Ctx, st *c07state, src, origin string) {
 	desc := c07desc(src, origin)
 	lr := guarded(3*time.Second, func() (interface{}, error) { return parser.LexToList("c07", src), nil })
@@ -197,7 +200,15 @@ func c07one(c *Ctx, st *c07state, src, origin string) {
 		ts = append(ts, c07tok(t))
 	}
 	id := c.NewID()
-	term := fmt.Sprintf("mkCase %d %s %s %s", id, CoqList(ts), tree, perr)
+	// the source bytes go along for small texts: Run/RunC07Lex.v runs the LEXER MODEL on them and
+	// compares its token list (through the adapter of Model/LexParse.v) with the real one above,
+	// so that the composed theorem C07_source_parse_total is about what this check exercises
+	srcOpt := "None"
+	if len(src) <= c07lexModelMaxSrc {
+		srcOpt = "(Some (" + CoqBytes(src) + ")%N)"
+		c.Dist["lexer_model_checked"]++
+	}
+	term := fmt.Sprintf("mkLCase (mkCase %d %s %s %s) %s", id, CoqList(ts), tree, perr, srcOpt)
 	c.Dist["origin_"+origin]++
 	c.AddCase(id, term, desc, key, nontrivial)
 	if r.Err != nil {
@@ -498,8 +509,8 @@ func (g c07gen) program() string {
 
 func runC07(c *Ctx) error {
 	c.Rule = "source texts: fixed corpus (witnesses of the repaired defects first); all sequences of up to 3 lexemes over the 14-lexeme alphabet {a, 1, \"s\", ( ) { } [ ] ; , := if return} (thorough: up to 3 over 20 lexemes adding + . newline for try func, and up to 4 over the 14), seeded longer ones over a wider alphabet; all byte strings up to length 3 over 12 bytes incl. quote, 0xff, control characters; seeded grammar-generated programs (expressions, assignments, if/elif/else, for, try/except/otherwise/finally, mutex, func, return, import, sink, comments) and single mutations of them; seeded token-level mutations (delete, duplicate, swap, stray terminator/bracket/keyword, truncate) of valid programs and of /repo's example programs; non-trivial = at least 2 tokens; distinct by source bytes"
-	c07header := "Set Warnings \"-abstract-large-number\".\nFrom Coq Require Import BinInt.\nFrom Ecal Require Import Common.Bytes Common.Ast Spec.ParseSpec Model.Parser Run.RunC07."
-	c.BeginCases(c07header, "case", 1200)
+	c07header := "Set Warnings \"-abstract-large-number\".\nFrom Coq Require Import BinInt.\nFrom Ecal Require Import Common.Bytes Common.Ast Spec.ParseSpec Model.Parser Run.RunC07 Run.RunC07Lex."
+	c.BeginCases(c07header, "lcase", 1200)
 	st := &c07state{}
 
 	if c.Replay != "" {
@@ -612,7 +623,7 @@ func runC07(c *Ctx) error {
 	}
 
 	// generated programs and single mutations of them (larger cases: smaller shards)
-	c.BeginCases(c07header, "case", 350)
+	c.BeginCases(c07header, "lcase", 350)
 	g := c07gen{c}
 	for i := 0; i < c.Pick(1200, 25000); i++ {
 		p := g.program()
